@@ -1,4 +1,4 @@
 From Coq Require Import Extraction ExtrOcamlBasic List NArith.
-From MirV Require Import C17.Alloc.
+From MirV Require Import C17.Alloc C17.CodeHolder.
 Extraction Language OCaml.
-Extraction "c17x.ml" st0 step accepts first_reject N.add N.mul N.of_nat.
+Extraction "c17x.ml" st0 step accepts first_reject N.add N.mul N.of_nat chstep chs0.
